@@ -124,7 +124,8 @@ void ValueStoreCache::cleanUp() {
 
 void ValueStoreCache::init() {
 
-    fValueStores = new (fMemoryManager) RefVectorOf<ValueStore>(8, false, fMemoryManager);
+    // owns the value stores handed to the enclosing elements by transplant()
+    fValueStores = new (fMemoryManager) RefVectorOf<ValueStore>(8, true, fMemoryManager);
     fGlobalICMap = new (fMemoryManager) RefHashTableOf<ValueStore, PtrHasher>
     (
         13
@@ -157,7 +158,6 @@ void ValueStoreCache::initValueStoresFor(SchemaElementDecl* const elemDecl,
         }
         else
             valueStore->clear();
-        fValueStores->addElement(valueStore);
     }
 }
 
@@ -173,7 +173,13 @@ void ValueStoreCache::transplant(IdentityConstraint* const ic, const int initial
     if (currVals) {
         currVals->append(newVals);
     } else {
-        fGlobalICMap->put(ic, newVals);
+        // The (ic, depth) store is cleared and reused by the next sibling element
+        // declaring ic (initValueStoresFor), so the enclosing elements must not
+        // share it: hand them a copy of its values.
+        ValueStore* copy = new (fMemoryManager) ValueStore(ic, fScanner, fMemoryManager);
+        fValueStores->addElement(copy);
+        copy->append(newVals);
+        fGlobalICMap->put(ic, copy);
     }
 }
 
